@@ -291,7 +291,7 @@ func (app *App) addPrefixToRoute(prefix string, route *Route) *Route {
 	route.Params = parseRoute(prefixedPath, app.customConstraints...).params
 	// same flags as a route registered directly under the prefixed path (mounting at "/" keeps "/" and "/*")
 	route.root = route.path == "/"
-	route.star = route.path == "/*"
+	route.star = prettyPath == "/*"
 
 	return route
 }
@@ -361,7 +361,7 @@ func (app *App) register(methods []string, pathRaw string, group *Group, handler
 		}
 
 		isUse := method == methodUse
-		isStar := pathClean == "/*"
+		isStar := pathPretty == "/*" // ("/\\*" is a literal star, not the wildcard)
 		isRoot := pathClean == "/"
 
 		route := Route{
